@@ -250,7 +250,7 @@ def case(ctx, i, tier):
     if early:
         ctx.cat("earlier-fold-after-later-fold")
     done2 = ep.reset_ended_episode(env)
-    for j in range(12 if early else 3):
+    for j in range(400 if early else 3):       # (the earlier fold is played to its end: its last dates are the later fold's warm-up)
         now = env.now()
         Xp = env.X.loc[:now]
         exp = Xp.iloc[-window:].values
